@@ -37,6 +37,12 @@ def add_random_controls(spec, rng, n=(1, 5), kinds=('time', 'clock', 'tank', 'pr
                   'value': rng.choice(['OPEN', 'CLOSED'])}
         elif kind == 'clock':
             ct = rng.choice([0, 3600, 6 * 3600, 7 * 3600 + 1800, 12 * 3600, 18 * 3600 + 900, 23 * 3600])
+            # mostly a time of day that the run actually passes (side stream: the main stream stays what it was)
+            import random as _random
+            rs = _random.Random(ct * 7 + dur * 13 + len(spec['controls']) * 101 + o.get('start_clocktime', 0))
+            if rs.random() < 0.6:
+                t_ = hyd * rs.randint(0, max(1, dur // hyd)) + (rs.randint(1, hyd - 1) if rs.random() < offgrid else 0)
+                ct = (o.get('start_clocktime', 0) + t_) % 86400
             cs = {'kind': 'time', 'name': name, 'time': ct, 'clock': True, 'daily': True, 'target': rng.choice(links),
                   'attr': 'status', 'value': rng.choice(['OPEN', 'CLOSED'])}
         elif kind == 'tank' and tanks:
@@ -80,6 +86,19 @@ def add_random_controls(spec, rng, n=(1, 5), kinds=('time', 'clock', 'tank', 'pr
                   'then': [{'target': v['name'], 'attr': 'setting', 'value': newval()}]}
             if rng.random() < 0.7:
                 cs['else'] = [{'target': v['name'], 'attr': 'setting', 'value': newval()}]
+        elif kind == 'rule_clock':
+            # a rule on the time of day: one comparison, or a window [c1, c2) that the run passes (possibly across midnight)
+            c1 = (o.get('start_clocktime', 0) + when()) % 86400
+            if rng.random() < 0.5:
+                cond = {'kind': 'clock', 'op': rng.choice(['>=', '>', '<', '<=']), 'time': c1}
+            else:
+                c2 = (c1 + hyd * rng.randint(1, 4) + rng.choice([0, 0, 1, 600])) % 86400
+                cond = {'kind': 'and' if c1 < c2 else 'or', 'a': {'kind': 'clock', 'op': '>=', 'time': c1}, 'b': {'kind': 'clock', 'op': '<', 'time': c2}}
+            cs = {'kind': 'rule', 'name': name, 'priority': rng.randint(1, 5), 'cond': cond,
+                  'then': [{'target': rng.choice(links), 'attr': 'status', 'value': rng.choice(['OPEN', 'CLOSED'])}]}
+            if rng.random() < 0.6:
+                a = cs['then'][0]
+                cs['else'] = [{'target': a['target'], 'attr': 'status', 'value': 'OPEN' if a['value'] == 'CLOSED' else 'CLOSED'}]
         elif kind == 'rule_time':
             t1 = when()
             cs = {'kind': 'rule', 'name': name, 'priority': rng.randint(1, 5),
